@@ -327,7 +327,7 @@ def x10_x12_p2(ctx, tab, sites, pp):
                 txt_v, def_v = ids
                 if 'defines=%s;' % def_v not in rest_txt:
                     r10.fail('%s:%s:defines-not-adopted' % (PP, callee), pp.where(st.get('l')),
-                             'the define table returned by %s (`%s`) is not adopted (`defines = %s`): definitions made in the included file are lost' % (callee, def_v, def_v))
+                             'the define table returned by %s (`%s`) does not replace the live table (`defines = %s`): definitions — or, if it is merely merged, undefinitions — made in the included file do not remain in force' % (callee, def_v, def_v))
                 if '%s.merge(%s);' % (pp.out_var, txt_v) not in rest_txt:
                     r10.fail('%s:%s:text-not-merged' % (PP, callee), pp.where(st.get('l')),
                              'the text returned by %s (`%s`) is not merged into the output' % (callee, txt_v))
